@@ -236,6 +236,11 @@ class Ctx:
             'bounds': self.bounds,
             'caps_hit': self.caps,
             'violation_instances_seen': self.violation_count,
+            'exhaustive_means': (
+                'every bound listed under `bounds` was enumerated completely '
+                'by this run, except entries whose label says "slice" / "not '
+                'exhaustive": those are seed-selected parts of the next bound '
+                'explored in addition to the completed ones'),
         }
         if len(self.outcomes) <= 1 and self.evaluations > 1:
             cov['warning'] = ('single observed outcome: nothing collided; '
